@@ -312,22 +312,43 @@ def interp_obligations(run, src):
         run.functions.update(eng.inlined)
     except (Unsupported, FunctionMissing) as u:
         run.undecide("components._Interp0d._interp/post", str(u))
-    # ---- _Interp1d: np.interp(|x|, |xs|, |fs|), independent of y
+    # ---- _Interp1d: np.interp(|x|, |xs| sorted ascending, |fs| carried along), independent of y
     try:
         eng = Engine(src)
-        ARR = z3.DeclareSort("Arr"); ABSA = z3.Function("abs_array", ARR, ARR); INTERP = z3.Function("np_interp", Rl, ARR, ARR, Rl)
+        ARR = z3.DeclareSort("Arr"); ORD = z3.DeclareSort("Ord")
+        ABSA = z3.Function("abs_array", ARR, ARR); INTERP = z3.Function("np_interp", Rl, ARR, ARR, Rl)
+        ARGSORT = z3.Function("np_argsort", ARR, ORD); TAKE = z3.Function("take", ARR, ORD, ARR)
         xs, fs = z3.Consts("xs fs", ARR)
+        def arr(t):
+            def gi(e, idx, t=t):
+                if isinstance(idx, Opaque) and idx.tag == "ord": return arr(TAKE(t, idx.attrs["z"]))
+                raise Unsupported("array subscript other than a permutation")
+            return Opaque("arr", attrs={"z": t}, getitem=gi)
         eng.np.methods["asarray"] = lambda e, a, **k: a
         orig_abs = eng.np.methods["abs"]
-        eng.np.methods["abs"] = lambda e, a: SV(ABSA(a.z)) if (is_sym(a) and a.z.sort() == ARR) else orig_abs(e, a)
-        eng.np.methods["interp"] = lambda e, x, xp, fp: SV(INTERP(to_z(x, "real"), xp.z, fp.z), "real")
+        eng.np.methods["abs"] = lambda e, a: arr(ABSA(a.attrs["z"])) if (isinstance(a, Opaque) and a.tag == "arr") else orig_abs(e, a)
+        eng.np.methods["argsort"] = lambda e, a, **k: Opaque("ord", attrs={"z": ARGSORT(a.attrs["z"])})
+        eng.np.methods["interp"] = lambda e, x, xp, fp: SV(INTERP(to_z(x, "real"), xp.attrs["z"], fp.attrs["z"]), "real")
         x, y = z3.Real("x"), z3.Real("y")
-        paths = eng.explore(lambda e: e.call_method(e.new_object("_Interp1d", [SV(xs), SV(fs)]), "_interp", [SV(x, "real"), SV(y, "real")]))
+        paths = eng.explore(lambda e: e.call_method(e.new_object("_Interp1d", [arr(xs), arr(fs)]), "_interp", [SV(x, "real"), SV(y, "real")]))
+        def replay_1d(model, zm):
+            # the clause is stated over uninterpreted array functions: a refutation counts only with a concrete witness
+            import numpy as np, sysloss.components as C
+            for xs_, fs_ in (([0.1, 0.5, 0.9], [1e-3, 5e-3, 9e-3]), ([-0.9, -0.5, -0.1], [9e-3, 5e-3, 1e-3]), ([-0.5, 0.1, 0.9], [5e-3, -1e-3, 9e-3]), ([0.0, 2.0], [0.3, 0.7])):
+                ip = C._Interp1d(list(xs_), list(fs_))
+                ax = np.abs(np.asarray(xs_)); af = np.abs(np.asarray(fs_)); o = np.argsort(ax, kind="stable")
+                for q in (-2.0, -0.5, -0.3, 0.0, 0.1, 0.25, 0.5, 0.9, 1.5):
+                    got = float(ip._interp(q, 7.0)); want_ = float(np.interp(abs(q), ax[o], af[o]))
+                    if not abs(got - want_) <= 1e-12 * max(1.0, abs(want_)):
+                        return {"confirmed": True, "call": "_Interp1d(%r, %r)._interp(%r, 7.0)" % (list(xs_), list(fs_), q), "observed": got, "required": want_}
+            return {"confirmed": False, "detail": "no concrete witness among the probe tables"}
         for pi, p in enumerate(paths):
-            want = INTERP(z3.If(x >= 0, x, -x), ABSA(xs), ABSA(fs))
-            obls.append({"id": "components._Interp1d._interp/post:np.interp(|x|, |xs|, |fs|), independent of y@p%d" % pi, "hyps": p.pc, "goal": (to_z(p.value, "real") == want) if p.kind == "return" else z3.BoolVal(False), "kind": "post", "tags": ["C10"], "meta": {}})
+            o_ = ARGSORT(ABSA(xs))
+            want = INTERP(z3.If(x >= 0, x, -x), TAKE(ABSA(xs), o_), TAKE(ABSA(fs), o_))
+            obls.append({"id": "components._Interp1d._interp/post:np.interp(|x|, |xs| ascending, |fs| carried along), independent of y@p%d" % pi, "hyps": p.pc, "goal": (to_z(p.value, "real") == want) if p.kind == "return" else z3.BoolVal(False), "kind": "post", "tags": ["C10"],
+                         "meta": {"replay": replay_1d, "abstract": True}})
         run.functions.update(eng.inlined)
-        run.assumed.add("np.interp(x, xp, fp): piecewise-linear interpolation over increasing xp, clamped to fp[0] / fp[-1] outside (validated boundedly by C10-B1)")
+        run.assumed.add("np.interp(x, xp, fp): piecewise-linear interpolation over increasing xp, clamped to fp[0] / fp[-1] outside; np.argsort / fancy indexing: the stable ascending permutation (validated boundedly by C10-B1)")
     except (Unsupported, FunctionMissing) as u:
         run.undecide("components._Interp1d._interp/post", str(u))
     # ---- _Interp2d._interp: result = _intp(clamp_x(x), clamp_y(y)), never NaN, given 'NaN exactly outside [xmin,xmax]x[ymin,ymax]'
